@@ -247,6 +247,7 @@ pub struct Monitor {
     pub check_frame_snapshots: bool,
     pub check_access: bool,
     pub check_memory: bool,
+    pub trace: bool,
     // ---- results
     pub violations: Vec<Violation>,
     pub counters: BTreeMap<String, u64>,
@@ -378,6 +379,9 @@ impl Monitor {
             FrameInputs::EofCreate(_) => (false, 3),
         };
         self.event(kind_tag);
+        if self.trace {
+            eprintln!("{}BEGIN hook={} depth={} {:?}", "  ".repeat(self.frames.len()), self.hook_no, depth, match &inputs { FrameInputs::Call(c) => format!("{:?} to {} code {} gas {} static {}", c.scheme, c.target_address, c.bytecode_address, c.gas_limit, c.is_static), FrameInputs::Create(c) => format!("{:?} by {} gas {}", c.scheme, c.caller, c.gas_limit), FrameInputs::EofCreate(c) => format!("eofcreate by {}", c.caller) });
+        }
         self.frames_total += 1;
         if parent_static && !is_static {
             let what = match &inputs {
@@ -481,6 +485,9 @@ impl Monitor {
 
     fn frame_end<DB: Database>(&mut self, context: &mut EvmContext<DB>, inputs: FrameInputs, result: InstructionResult, out_address: Option<Address>, gas: Gas) {
         self.event(10 + result as u64);
+        if self.trace {
+            eprintln!("{}END {result:?} addr={out_address:?} gas_left={}", "  ".repeat(self.frames.len().saturating_sub(1)), gas.remaining());
+        }
         self.finalize_ended();
         if self.pending.is_some() {
             self.viol("C29", "C29.step-bracket", &[("case", "frame-end-inside-step".into())], "call/create end notification arrived before step_end of the previous step".into());
@@ -555,8 +562,12 @@ impl Monitor {
                     || (result == InstructionResult::Return && out_address.is_none())
                     || rec.short_circuited;
                 if early {
-                    if !was_accessed_before.unwrap_or(true) {
-                        self.model.addrs.remove(&a);
+                    // undo the insertion made at frame begin (the address revm would have
+                    // computed, not the one an injected outcome carries)
+                    if let Some(c) = rec.created_address {
+                        if !was_accessed_before.unwrap_or(true) {
+                            self.model.addrs.remove(&c);
+                        }
                     }
                 } else {
                     self.model.addrs.insert(a);
@@ -938,6 +949,9 @@ impl Monitor {
         if self.check_access && spec.is_enabled_in(SpecId::BERLIN) && !interp.is_eof && js.journal.len() == rec.journal_vecs_before {
             let new_entries: &[JournalEntry] = js.journal.last().map(|j| &j[rec.journal_len_before.min(j.len())..]).unwrap_or(&[]);
             let gas_used = rec.gas_before.saturating_sub(interp.gas.remaining());
+            if self.trace {
+                eprintln!("{}op 0x{:02x} addr={:?} slot={:?} model_cold=({:?},{:?}) res={res:?} new_journal={:?}", "  ".repeat(self.frames.len()), rec.opcode, rec.addr_operand, rec.slot_operand, rec.model_addr_cold, rec.model_slot_cold, new_entries);
+            }
             if let (Some(a), Some(model_cold)) = (rec.addr_operand, rec.model_addr_cold) {
                 // did revm treat the address as cold? (a cold load is journaled)
                 let revm_cold = new_entries.iter().any(|e| matches!(e, JournalEntry::AccountWarmed { address } if *address == a));
